@@ -43,6 +43,25 @@ QueryEv(e) ==
                      LET pop == Population(recs, TagOrLast(recs, e.tag)) IN
                      /\ e.result[1] = [ j \in DOMAIN pop |-> j - 1 ]
                      /\ e.result[2] = [ j \in DOMAIN pop |-> pop[j].vec[e.p] ])
+         [] e.name = "goal_on_index_all" ->
+              Clause("goal-on-index-all-goals",
+                     LET pop == Population(recs, TagOrLast(recs, e.tag)) IN
+                     /\ e.result[1] = [ j \in DOMAIN pop |-> j - 1 ]
+                     /\ \A c \in 1..2 : e.result[c + 1] = [ j \in DOMAIN pop |-> pop[j].costs[c] ])
+         [] e.name = "parameter_on_index_all" ->
+              Clause("parameter-on-index-all-parameters",
+                     LET pop == Population(recs, TagOrLast(recs, e.tag)) IN
+                     /\ e.result[1] = [ j \in DOMAIN pop |-> j - 1 ]
+                     /\ \A p \in 1..2 : e.result[p + 1] = [ j \in DOMAIN pop |-> pop[j].vec[p] ])
+         [] e.name = "pareto_individuals" ->
+              Clause("pareto-individuals",
+                     LET pop == Population(recs, TagOrLast(recs, e.tag))
+                         sel == SelectSeq(pop, LAMBDA r : r.k \in SeqRange(e.front1))
+                     IN e.result = [ j \in DOMAIN sel |-> sel[j].k ])
+         [] e.name = "population_ids" ->
+              Clause("population-ids", SeqRange(e.result) = { recs[i].tag : i \in DOMAIN recs } /\ Len(e.result) = Cardinality({ recs[i].tag : i \in DOMAIN recs }))
+         [] e.name = "names" ->
+              Clause("names-and-indices", e.result = <<"p1", "p2", "c1", "c2", 2, 2, 0, 1, 0, 1>>)
          [] e.name = "find_optimum" ->
               /\ Clause("optimum-is-recorded", e.result \in 1..Len(recs))
               /\ Clause("optimum-is-extremal", e.result \in 1..Len(recs) => IsOptimum(recs, e.result, e.c, Dir[e.c]))
